@@ -74,6 +74,24 @@ def main():
             out.append({"a": "Update", "child": child, "u": c["u"], "l": listed, "rc": c["rc"], "name": n, "orig": str(origs[n]),
                         "r": str(r), "res": res, "seed_before": before_seed, "seed_after": str(st.seed()),
                         "draws_before_peek": "|".join(peek), "draws_after": "|".join(after), "want_from_list": want})
+            # HISTORY: the same stream object is updated again for another replication: the result is the same function of
+            # (name, original seed, r) as for a fresh stream, whatever was done to the stream before
+            if res == "ok" and c.get("again"):
+                rc2 = c["again"]
+                r2 = {"first": 0, "inside": 1, "last": 2}[rc2]
+                before2 = str(st.seed())
+                try:
+                    upd.update_seed(n, st, r2)
+                    res2 = "ok"
+                except (ValueError, TypeError):
+                    res2 = "error"
+                except Exception as ex:
+                    res2 = type(ex).__name__
+                after2 = [st.next_float().hex(), st.next_float().hex()]
+                want2 = str(src[r2]) if src is not None and 0 <= r2 < len(src) else (str(7 * origs[n] + 13 * r2 + len(n)) if c["u"] == "custom" and src is None else "")
+                out.append({"a": "Update", "child": child, "u": c["u"], "l": listed, "rc": rc2, "name": n, "orig": str(origs[n]),
+                            "r": str(r2), "res": res2, "seed_before": before2, "seed_after": str(st.seed()),
+                            "draws_before_peek": "", "draws_after": "|".join(after2), "want_from_list": want2})
         if c["bulk"]:
             # the bulk entry point on fresh streams must give the same seeds as the per-stream calls
             fresh = {n: MersenneTwister(origs[n]) for n in names}
@@ -83,6 +101,21 @@ def main():
             try:
                 upd.update_seeds(fresh, r)
                 bulk = {n: str(s.seed()) for n, s in fresh.items()}
+                if not c.get("alias"):
+                    # the bulk entry point gives every stream the seed the per-stream function gives it (whatever the other
+                    # streams of the set are, and in whatever order they are listed): same memo as the single updates
+                    for n, s in fresh.items():
+                        tabled = c["u"] in ("table", "chained", "custom")
+                        if tabled and n in table:
+                            l2, src2 = ("listed" if table[n] else "empty"), table[n]
+                        elif c["u"] == "chained" and n in table2:
+                            l2, src2 = "fb_listed", table2[n]
+                        else:
+                            l2, src2 = "unlisted", None
+                        w2 = str(src2[r]) if src2 is not None and 0 <= r < len(src2) else (str(7 * origs[n] + 13 * r + len(n)) if c["u"] == "custom" and src2 is None else "")
+                        out.append({"a": "Update", "child": child, "u": c["u"], "l": l2, "rc": c["rc"], "name": n, "orig": str(origs[n]),
+                                    "r": str(r), "res": "ok", "seed_before": str(origs[n]), "seed_after": str(s.seed()),
+                                    "draws_before_peek": "", "draws_after": "|".join([s.next_float().hex(), s.next_float().hex()]), "want_from_list": w2})
             except Exception as ex:
                 # a refusal half-way: which streams were already re-seeded must not depend on the process
                 bulk = {n: str(s.seed()) for n, s in fresh.items()} if c.get("fixed_order") else {}
